@@ -80,6 +80,12 @@ impl Sym {
     pub fn from_name(s: &str) -> Option<Sym> {
         alphabet_ext().into_iter().find(|x| x.name() == s)
     }
+    /// After this request the T-service is expected to close the connection (the generated
+    /// dispatch returns Err after its InvalidParameter reply; a `continues` reply without `more`
+    /// fails).
+    pub fn closes(&self) -> bool {
+        matches!(self.kind, Kind::BadMissing | Kind::BadType) || (self.kind == Kind::NaiveStream && self.flag != Flag::More)
+    }
     /// error-producing or streaming (the C01 non-triviality rule looks for one of these before
     /// another request)
     pub fn is_error_or_stream(&self) -> bool {
@@ -154,7 +160,10 @@ pub fn big_blob(class: u8, i: usize) -> String {
 pub enum Style {
     Compact,
     Spaced,
+    /// flags after method/parameters; unused flags spelled `more: false`, `oneway: null`
     FlagsLast,
+    /// every unused flag spelled out as `false`
+    FlagsFalse,
 }
 
 /// Build the request object for symbol `s` at sequence index `i` (tokens are unique per index).
@@ -244,6 +253,16 @@ pub fn encode(req: &Value, style: Style) -> Vec<u8> {
         Style::Spaced => {
             let s = serde_json::to_string_pretty(req).unwrap();
             format!(" \t{}\r\n", s).into_bytes()
+        }
+        Style::FlagsFalse => {
+            let o = req.as_object().unwrap();
+            let mut m = o.clone();
+            for k in ["more", "oneway", "upgrade"] {
+                if !m.contains_key(k) {
+                    m.insert(k.to_string(), Value::Bool(false));
+                }
+            }
+            serde_json::to_vec(&Value::Object(m)).unwrap()
         }
         Style::FlagsLast => {
             // flags after method/parameters, explicit false/null for the unused flags
